@@ -48,6 +48,8 @@ def main():
             if c is None:
                 return [("reply", dnslib.build_reply(q, rcode=3), 0)]
             up = bytes.fromhex(c["upstream_hex"])
+            if proto == "tcp" and c.get("upstream_tcp") == "close":
+                return [("close",)]
             if proto == "udp" and len(up) > 4000:
                 # what a real server does with erbium's advertised 4096: truncate (to nothing, or to the whole records
                 # that fit), client retries over TCP
